@@ -58,6 +58,7 @@ def RES(f, c): return [13, f, c]          # move || res_f.get().map(|_| c): sync
 def LS(f, pre, post, c): return [14, f, pre, post, c]   # Suspend { [local.await;] f.await; [local.await;] c }
 def V(*cs): return [8] + list(cs)          # Vec<AnyView>: children, then a <!> end marker
 def O(c=None): return [9] if c is None else [9, c]      # Option<AnyView>
+def KL(*cs): return [29] + list(cs)       # keyed list (what <For> renders): like Vec
 def W(w, c): return [15, w, c]            # transparent wrapper (Either / EitherOfN / Result::Ok / OwnedView / View / [T;1])
 def SQ(k, *cs): return [16, k] + list(cs) # [T;N] / StaticVec / Fragment: children, no end marker
 def TR_(rep, s): return [26, rep, s]      # text node in another representation (&str, Cow, Arc<str>, Oco, numbers)
@@ -92,7 +93,7 @@ def futures_of(v):
     k = v[0]
     if k in (0, 6, 26, 22, 23):
         return []
-    if k in (8, 9, 15, 16, 27, 17, 18, 21, 24, 28):
+    if k in (8, 9, 15, 16, 27, 17, 18, 21, 24, 28, 29):
         return [f for c in children(v) for f in futures_of(c)]
     if k == 19:
         return [v[1]]
@@ -135,7 +136,7 @@ def children(v):
         return [v[3]]
     if k == 25:
         return [v[2]]
-    if k in (8, 9):
+    if k in (8, 9, 29):
         return v[1:]
     if k == 15:
         return [v[2]]
@@ -260,8 +261,8 @@ def show_view(v):
     if k == 14:
         return "Suspend(%sf%d.await; %s-> %s)" % ("local.await; " if v[2] else "", v[1],
                                                    "local.await; " if v[3] else "", show_view(v[4]))
-    if k == 8:
-        return "vec![" + ", ".join(show_view(c) for c in v[1:]) + "]"
+    if k in (8, 29):
+        return ("vec![" if k == 8 else "keyed[") + ", ".join(show_view(c) for c in v[1:]) + "]"
     if k == 9:
         return "Some(%s)" % show_view(v[1]) if len(v) > 1 else "None"
     if k == 15:
@@ -300,7 +301,7 @@ class Lab:
 
 
 # containers / wrappers / text representations of tachys (modelled by desugaring, see StreamRun.view_of)
-CONT = {8, 9, 15, 16, 26, 27}
+CONT = {8, 9, 15, 16, 26, 27, 29}
 FBOK = CONT | {21, 22, 23, 24}      # besides text / elements / tuples: what a fallback may contain
 
 
@@ -367,7 +368,7 @@ def gen_view(rng, lab, fut, depth, allow, in_fallback=False, in_susp=False, top=
             opts += [14, 14]
         if 28 in allow and in_susp and not in_fallback:
             opts += [28]
-        for ck in (8, 9, 15, 16, 27, 21, 21, 22, 23, 24):
+        for ck in (8, 9, 15, 16, 27, 29, 21, 21, 22, 23, 24):
             if ck in allow:
                 opts += [ck]
         if not in_fallback:
@@ -390,10 +391,12 @@ def gen_view(rng, lab, fut, depth, allow, in_fallback=False, in_susp=False, top=
             rep = rng.randrange(11)
             return TR_(rep, lab.number(rep == 8) if rep in (7, 8) else lab.text())
         return T(lab.text())
-    if k in (8, 16, 27):
-        n = rng.choice([0, 1, 2, 2, 3]) if k == 8 else rng.choice([0, 1, 2, 3, 4]) if k == 16 else rng.choice([2, 2, 3, 4])
-        cs = [rec() for _ in range(n)]
-        return V(*cs) if k == 8 else SQ(rng.randrange(3), *cs) if k == 16 else EN(rng.randrange(4), *cs)
+    if k in (8, 16, 27, 29):
+        n = rng.choice([0, 1, 2, 2, 3]) if k in (8, 29) else rng.choice([0, 1, 2, 3, 4]) if k == 16 else rng.choice([2, 2, 3, 4])
+        # (a keyed list hides LocalResource reads from its <Suspense> as well — F-C07-i; only the
+        # resource reads are generated there)
+        cs = [rec(depth - 1, allow - {14, 28} if k == 29 else allow) for _ in range(n)]
+        return V(*cs) if k == 8 else KL(*cs) if k == 29 else SQ(rng.randrange(3), *cs) if k == 16 else EN(rng.randrange(4), *cs)
     if k == 9:
         return O() if rng.random() < 0.3 else O(rec())
     if k == 15:
@@ -530,6 +533,9 @@ def templates():
     t.append(("vec-text", d(Tu(V(T("a"), S(1, T("m"))), T("r")))))
     t.append(("vec-empty", d(Tu(T("l"), V(), S(1, T("m")), V(S(2, T("n"))), T("r")))))
     t.append(("opt", d(Tu(O(S(1, p(T("x")))), O(), T("r"), O(S(2, T("y"))), T("s")))))
+    t.append(("keyed", d(Tu(T("l"), KL(T("a"), S(1, p(T("x"))), T("c"), S(2, T("m"))), T("r"), KL()))))
+    t.append(("keyed-susp", d(SU(p(T("L1")), Tu(KL(S(1, p(T("C1"))), p(T("k")), CL(S(2, p(T("C2"))))), E(2, T("t")))))))
+    t.append(("keyed-res", d(SU(p(T("L1")), KL(p(T("k")), RES(1, p(T("C1"))))))))
     for w in range(8):
         t.append(("wrap-%d" % w, d(Tu(T("l"), W(w, S(1, T("m"))), T("r")))))
     t.append(("wrap-nest", d(W(0, W(3, W(4, Tu(p(T("o")), W(5, S(1, W(2, S(2, p(T("i")))))), E(2, T("z")))))))))
@@ -753,12 +759,14 @@ def res_placement_ok(v, in_susp=False, top=True):
     return all(res_placement_ok(c, in_susp, top) for c in children(v))
 
 
-SIMPLE = {0, 1, 2, 8, 9, 15, 16, 26, 27, 21, 22, 23, 24}     # views without futures or components
+SIMPLE = {0, 1, 2, 8, 9, 15, 16, 26, 27, 29, 21, 22, 23, 24}     # views without futures or components
 RAW_CHILD = {0, 26, 2, 3, 8, 9, 15, 16, 17}                  # what may stand in a <textarea>/<style>
 
 
 def raw_children_ok(v, in_raw=False, in_style=False):
     k = v[0]
+    if k == 29 and kinds_in(v) & {14, 28}:
+        return False      # see gen_view
     if in_raw and k not in RAW_CHILD:
         return False
     if in_style and k in (0, 26) and b"<!--s-" in bytes(v[2] if k == 26 else v[1]):
@@ -777,6 +785,8 @@ def valid_case(it):
             return False
         if case[1] & 4 and not case[1] & 1:
             return False      # a nonce only matters for the scripts of an out-of-order stream
+        if case[1] & 2 and 29 in kinds_in(case[3]):
+            return False      # branch markers of a keyed list need tachys' `islands` feature (it panics without)
         tree = case[3]
         if not wf_view(tree, False) or not res_placement_ok(tree) or not raw_children_ok(tree):
             return False
@@ -822,7 +832,7 @@ def wf_view(v, in_fallback):
         return len(v) == 3 and isinstance(v[1], int) and 0 <= v[1] < 4 and wf_view(v[2], in_fallback)
     if k == 2:
         return (len(v) - 1) in TUPLE_ARITIES and all(wf_view(c, in_fallback) for c in v[1:])
-    if k == 8:
+    if k in (8, 29):
         return all(wf_view(c, in_fallback) for c in v[1:])
     if k == 9:
         return len(v) <= 2 and all(wf_view(c, in_fallback) for c in v[1:])
@@ -939,6 +949,8 @@ def generate(rng, tier):
                         yield item(mode, 0, tree, [], rand_pipeline_schedule(rng, futs), "tpl-pipeline-" + mode_name(mode), op=2)
             # the `_branching` entry points, and a nonce for the replacement scripts
             modes = [ooo | 2] + ([ooo | 4, ooo | 6] if ooo and (ks & NONCE_KINDS) else [])
+            if 29 in ks:
+                modes = [m for m in modes if not m & 2]
             for mode in modes:
                 for s in schedules(futs, rng, 3 if quick else 40):
                     yield item(mode, 0, tree, [], s, "tpl-" + mode_name(mode))
@@ -955,7 +967,7 @@ def generate(rng, tier):
         futs = futures_of(tree)
         ks = kinds_in(tree)
         mode = rng.choice([0, 1])
-        if rng.random() < 0.12:
+        if rng.random() < 0.12 and 29 not in ks:
             mode |= 2
         if mode & 1 and (ks & NONCE_KINDS) and rng.random() < 0.15:
             mode |= 4
@@ -1067,10 +1079,10 @@ def py_render(v, flag, dropped=frozenset(), attrs="", esc=True):
             # already on its way (extra_attrs) reaches the fallback as well
             return R(c[1], flag, attrs)
         return R(c, flag, mine)
-    if k in (8, 16):
-        # Vec: the children, then a <!> end marker; arrays / StaticVec / Fragment: just the children
+    if k in (8, 16, 29):
+        # Vec / keyed list: the children, then a <!> end marker; arrays / StaticVec / Fragment: just the children
         h, fl = seq(children(v), flag)
-        if k == 8 and esc:
+        if k in (8, 29) and esc:
             return h + "<!>", False
         return h, fl
     if k == 9:
@@ -1103,6 +1115,8 @@ def py_render(v, flag, dropped=frozenset(), attrs="", esc=True):
         # a boundary that reads a LocalResource can never resolve on the server: it keeps its fallback
         return R(v[1] if reads_local(v[2]) else v[2], flag)
     if k == 13:
+        if v[1] in dropped:
+            return unit           # read too early: None
         return R(v[2], flag)      # closure -> Option::Some(view): transparent
     if k == 14:
         return R(v[4], flag)      # only reached without a local read
@@ -1374,7 +1388,7 @@ def pos_free(ooo, v, flag, init, strict, in_suspense=False, dropped=frozenset())
         return v[1] % 4 in RAW_TAGS or rec(v[3], False, strict)
     if k in (9, 15, 17, 18, 24):
         return all(rec(c, flag, strict) for c in children(v))
-    if k in (2, 8, 16, 27):
+    if k in (2, 8, 16, 27, 29):
         if k == 27:
             flag = False
         for c in children(v):
@@ -1454,6 +1468,22 @@ def _classify(item, impl, model):
                 want = tree_of(py_render(tree, False)[0])
                 if H.strip_markers(blank_raw(got)) == H.strip_markers(blank_raw(want)):
                     return "F-C07-g"
+    # F-C07-i: a resource read synchronously inside an item of a keyed list under <Suspense> is not
+    # registered (Keyed::dry_resolve is empty): the boundary resolves before the resource has loaded
+    kres = keyed_reads(tree)
+    if kres and "every future complete before rendering" not in msg:
+        m = re.search(r"before future (\d+) completed|while future (\d+) is still pending", msg)
+        if m and int(m.group(1) or m.group(2)) in kres:
+            return "F-C07-i"
+        if "document differs" in msg:
+            doc, err = check_timeline(case, events)
+            if not err:
+                got = H.visible(doc.body)
+                for r in range(1, len(kres) + 1):
+                    for sub in itertools.combinations(kres, r):
+                        want = tree_of(py_render(tree, False, frozenset(sub))[0])
+                        if H.strip_markers(got) == H.strip_markers(want):
+                            return "F-C07-i"
     if "document differs" not in msg:
         return None
     if "every future complete before rendering" in msg:
@@ -1500,6 +1530,23 @@ def raw_text_chunks(v, in_susp=False, in_raw=False, out=None):
     else:
         for c in children(v):
             raw_text_chunks(c, in_susp, in_raw, out)
+    return out
+
+
+def keyed_reads(v, in_susp=False, in_keyed=False, out=None):
+    """futures of the resources read synchronously inside a keyed list among the children of a <Suspense>"""
+    out = [] if out is None else out
+    k = v[0]
+    if k == 13 and in_susp and in_keyed:
+        out.append(v[1])
+    if k in (11, 12):
+        keyed_reads(v[1], False, False, out)
+        keyed_reads(v[2], True, False, out)
+    elif k in (3, 7):
+        keyed_reads(v[2], False, False, out)
+    else:
+        for c in children(v):
+            keyed_reads(c, in_susp, in_keyed or k == 29, out)
     return out
 
 
